@@ -22,7 +22,7 @@ Stage C  shared-instance stress (the documented deployment: ONE backend value sh
          recorded history (mon_stale_replace_refused, mon_failed_replace_no_effect,
          mon_fetch_after_success), and the per-log histories, cut at their quiescent points, are
          decided by the same extracted checker (a history whose projection on one log ID has no
-         linearization has none itself).
+         linearization has none itself: Lock/Locality.v projection_rejected_refutes).
 """
 import os, random
 import checklib as L
@@ -41,7 +41,7 @@ TRUSTED = [
     "ASSUMED: one request per call. The AWS SDK retryer may re-send a PutItem/PutObject whose reply was lost after it was applied; the retry re-evaluates the condition (the call then fails although it took effect = result Unknown; with repeating values A->B->A it could be applied twice). Checkpoints never repeat (C01), sunlight treats every Replace error as fatal",
     "the fake DynamoDB and S3 endpoints (harness/lock/fakes.go) are hand transcriptions of the Coq server models dy_server / et_server (both ETag flavours); the differential run compares their replies with the model's replies line by line",
     "Go harness harness/lock (generators, classification of Go errors into refused/err, reference register of the monitors, CLOCK_MONOTONIC timestamps taken before/after each call, barrier = quiescent point between windows); harness/inject/internal/ctlog/zz_verif_lock.go (VerifClose, VerifLockHandle; tag verif)",
-    "stage C (harness/lock/stress.go): the three history monitors are exact only because every value written to a log ID is unique (worker tag + counter; checked by construction, not by a theorem); the per-log-ID linearizability check uses the easy half of locality (a linearization of the whole history restricted to one log ID is a linearization of the projection: operations on other IDs do not touch that ID's entry of the register), argued on paper, not in Coq; detection of a scheduling-dependent defect is probabilistic per run (Go scheduler, sync.Mutex hand-off, fsync latency)",
+    "stage C (harness/lock/stress.go): the three history monitors are exact only because every value written to a log ID is unique (worker tag + counter; checked by construction, not by a theorem); the per-log-ID linearizability verdicts use the easy half of locality, proved in Lock/Locality.v (project_linearizable, projection_rejected_refutes: a projection rejected by linearizable_b refutes the whole recorded history; closed under the global context; compiled by this check), while 'every projection accepted => whole history linearizable' (Herlihy-Wing) is NOT proved and not needed for reporting a violation; the cut of a per-log history into windows is done by the Go harness (quiescent points = start > every earlier finish), window_ok re-checks it inside the extracted checker; detection of a scheduling-dependent defect is probabilistic per run (Go scheduler, sync.Mutex hand-off, fsync latency)",
     "models Lock/Sqlite.v, Lock/Dynamo.v, Lock/Etag.v are hand transcriptions of sqlite.go, dynamodb.go, etag.go (and of crawshaw BindBytes nil->NULL / empty->zeroblob, AWS SDK serialisation as observed on the wire), tied by the differential run",
 ]
 ASSUME = [
@@ -157,7 +157,12 @@ def history_of(wins, run, k=None):
 
 def stress_stage(res, hexe, mexe, tier, seed):
     """stage C: one backend instance shared by many goroutines / log IDs (harness/lock/stress.go)"""
-    st = {"windows": 0, "window_failures": 0, "ops": 0, "max_window": 0, "window_sizes": {}, "stats": {}, "runs": 0,
+    # the per-log-ID verdicts rest on Lock/Locality.v (a rejected projection refutes the whole history)
+    lok, llog = L.coq_make(["Lock/Locality.vo"])
+    if not lok:
+        p = L.write_replay(PROP, "coq_locality.txt", "Lock/Locality.v (projection_rejected_refutes) no longer compiles\n" + llog[-4000:])
+        res.violation(p, "Lock/Locality.v no longer checks (per-log-ID linearizability verdicts of the shared-instance stress rest on it)", no_input=True)
+    st = {"locality_lemma_checked": lok, "windows": 0, "window_failures": 0, "ops": 0, "max_window": 0, "window_sizes": {}, "stats": {}, "runs": 0,
           "monitors": {}, "monitor_failures": 0}
     scale = 1 if tier == "quick" else 3
     rc, out, dt = L.run([hexe, "-mode=stress", "-seed=%d" % seed, "-scale=%d" % scale], timeout=900)
@@ -296,7 +301,7 @@ def main(tier, seed, replay):
         "fetch_of_missing_log_answered_notfound": never_created,
         "value_distribution": values,
         "sqlite_concurrency": {k: cst.get(k) for k in ("config", "runs", "windows", "ops", "max_window", "window_sizes", "window_failures", "stats", "harness_wall_s")},
-        "shared_instance_stress": {k: sst.get(k) for k in ("config", "runs", "windows", "ops", "max_window", "window_sizes", "window_failures", "monitors", "monitor_failures", "stats", "harness_wall_s")},
+        "shared_instance_stress": {k: sst.get(k) for k in ("config", "locality_lemma_checked", "runs", "windows", "ops", "max_window", "window_sizes", "window_failures", "monitors", "monitor_failures", "stats", "harness_wall_s")},
         "sdk_retry_probe_candidate_finding": probe,
         "wire_observation": "Create sends the header bytes 'If-Match: ' (empty value, once); Replace sends the fetched ETag verbatim incl. quotes; GET carries Cache-Control: no-cache and X-Tigris-Cas: true; a nil Go slice reaches DynamoDB as {\"B\": null}",
         "trusted_base": TRUSTED + ["repo " + L.repo_rev()],
